@@ -1486,6 +1486,12 @@ func ruleC16(c *Ctx) {
 			}
 			// textual structure
 			c.check(len(reForm.FindAllString(src, -1)) == 1, "C16-R2", fname, "exactly one form ["+label+"]", c.P.InstrPos(exec.Instr), "1", "template does not contain exactly one <form")
+			// the script that submits the form names the form that is on the page
+			formIDs := regexp.MustCompile(`(?i)<form\b[^>]*\bid="([^"]*)"`).FindAllStringSubmatch(src, -1)
+			for _, m := range regexp.MustCompile(`getElementById\('([^']*)'\)\s*\.\s*submit\(`).FindAllStringSubmatch(src, -1) {
+				c.check(len(formIDs) == 1 && formIDs[0][1] == m[1], "C16-R2", fname, "auto-submit targets the form on the page ["+label+"]", c.P.InstrPos(exec.Instr), "getElementById('"+m[1]+"') is the form's id",
+					"the script submits element '"+m[1]+"', which is not the id of the form in this template: the form is never posted")
+			}
 			low := strings.ToLower(src)
 			c.check(strings.Contains(low, `method="post"`), "C16-R2", fname, "method POST ["+label+"]", c.P.InstrPos(exec.Instr), "post", "form method is not POST")
 			c.check(strings.Contains(src, `action="{{.URL}}"`), "C16-R2", fname, "action={{.URL}} in a quoted attribute ["+label+"]", c.P.InstrPos(exec.Instr), "quoted", "form action is not the quoted {{.URL}} action")
